@@ -506,6 +506,7 @@ func main() {
 	proto := flag.String("proto", "tcp", "internal: what the wire log records")
 	sx := flag.String("e2e", "", "end-to-end runs with this sx binary in private network namespaces")
 	ne2e := flag.Int("ne2e", 7, "number of end-to-end runs")
+	e2eSet := flag.String("e2eset", "coverage", "coverage | refuse (non-IPv4 targets, for C02)")
 	flag.Parse()
 	if *sniffIf != "" {
 		sniff(*sniffIf, *proto, *out)
@@ -520,7 +521,7 @@ func main() {
 	w := hlib.NewOut(*out)
 	defer w.Close()
 	if *sx != "" {
-		mainE2E(w, *sx, *seed, *ne2e)
+		mainE2E(w, *sx, *seed, *ne2e, *e2eSet)
 		return
 	}
 	if *one != "" {
